@@ -124,13 +124,15 @@ def _c14_section():
             return [(m.group(1), "MP_FirstWins")]
         m = re.fullmatch(r"self\.%s\.extend\(other\.%s\);" % (F, F), s)
         if m and m.group(1) == m.group(2):
-            return [(m.group(1), "EXTEND")]
+            first = m.group(1) not in extras.setdefault("__ops__", {})
+            extras["__ops__"].setdefault(m.group(1), []).append("VO_Extend")
+            return [(m.group(1), "EXTEND")] if first else []
         m = re.fullmatch(r"self\.%s\.sort\(\);" % F, s)
         if m:
-            extras.setdefault(m.group(1), set()).add("sort"); return []
+            extras.setdefault("__ops__", {}).setdefault(m.group(1), []).append("VO_Sort"); return []
         m = re.fullmatch(r"self\.%s\.dedup\(\);" % F, s)
         if m:
-            extras.setdefault(m.group(1), set()).add("dedup"); return []
+            extras.setdefault("__ops__", {}).setdefault(m.group(1), []).append("VO_Dedup"); return []
         m = re.fullmatch(r"self\.%s = cmp::max\(\s*self\.%s\s*,\s*other\.%s\s*,?\s*\);" % (F, F, F), s)
         if m and m.group(1) == m.group(2) == m.group(3):
             return [(m.group(1), "MP_Max")]
@@ -164,23 +166,27 @@ def _c14_section():
         errors.append("unrecognised statement in fn merge of %s: %s" % (where, s[:120]))
         return []
 
-    def merge_table(rel, where):
+    def merge_table(rel, where, kinds):
         body = fn_body(rel, r"fn merge\(&mut self, other: Self\) -> Result<\(\), pset::Error>\s*\{")
         if body is None:
             return [], {}
         extras, tbl = {}, []
         for st in statements(body):
             tbl += classify(st, where, extras)
+        ops = extras.get("__ops__", {})
+        for f in ops:
+            if f not in [g for g, _ in tbl]:
+                errors.append("field %s of %s is sorted/deduplicated but never extended" % (f, where))
         out = []
         for f, p in tbl:
             if p == "EXTEND":
-                ex = extras.get(f, set())
-                if ex == {"sort", "dedup"}:
-                    p = "MP_ScalarUnion"
-                elif not ex:
+                if kinds.get(f) == "set":
+                    # a Vec: the exact sequence of vector operations, in source order
+                    p = "(MP_VecOps [%s])" % "; ".join(ops[f])
+                elif ops[f] == ["VO_Extend"]:
                     p = "MP_Extend"
                 else:
-                    errors.append("field %s of %s is extended with %s only" % (f, where, sorted(ex))); p = "MP_Extend"
+                    errors.append("map field %s of %s is merged with %s" % (f, where, ops[f])); p = "MP_Extend"
             out.append((f, p))
         names = [f for f, _ in out]
         for f in set(names):
@@ -202,12 +208,13 @@ def _c14_section():
     lines.append("From EV Require Import Base.Bytes.")
     lines.append("Definition fld (s : blit) : list byte := unlit s.")
     lines.append("Inductive field_kind := FK_opt | FK_map | FK_set | FK_mand.")
-    lines.append("Inductive merge_policy := MP_FirstWins | MP_FirstWinsClearing (cleared : list (list byte)) | MP_Extend | MP_Max | MP_OrFlags | MP_ScalarUnion | MP_Xpub | MP_NotMerged.")
+    lines.append("Inductive vec_op := VO_Extend | VO_Sort | VO_Dedup.   (* Vec::extend(other), Vec::sort(), Vec::dedup() *)")
+    lines.append("Inductive merge_policy := MP_FirstWins | MP_FirstWinsClearing (cleared : list (list byte)) | MP_Extend | MP_Max | MP_OrFlags | MP_VecOps (ops : list vec_op) | MP_Xpub | MP_NotMerged.")
     kindc = {"opt": "FK_opt", "map": "FK_map", "set": "FK_set", "mand": "FK_mand"}
     xpub_loop = None
     for mapname, rel, struct in (("global", "pset/map/global.rs", "Global"), ("input", "pset/map/input.rs", "Input"), ("output", "pset/map/output.rs", "Output")):
         fields = flatten(struct_fields(rel, struct), rel)
-        tbl, extras = merge_table(rel, struct)
+        tbl, extras = merge_table(rel, struct, dict(fields))
         if "__xpub_loop__" in extras:
             xpub_loop = extras["__xpub_loop__"]
         fnames = [f for f, _ in fields]
